@@ -1,12 +1,18 @@
 package checks
 
 import (
+	"bufio"
 	"bytes"
+	"os"
+	"os/exec"
+	"path/filepath"
+	"strconv"
 
 	"github.com/jsightapi/jsight-schema-go-library/fs"
 
 	"fmt"
 	"github.com/jsightapi/jsight-api-go-library/core"
+	"github.com/jsightapi/jsight-api-go-library/directive"
 	"github.com/jsightapi/jsight-api-go-library/kit"
 	"sort"
 	"strings"
@@ -33,14 +39,209 @@ func init() {
 			"distinct_nontrivial = distinct (banned kind hit | none, carrier)",
 		Assumptions: []string{
 			"when several banned kinds occur the diagnostic may name any of them",
-			"'before any file it names is read' is observed through the diagnostic (a missing/broken target must not surface), not through a syscall trace",
+			"'before any file it names is read' is observed twice: through the diagnostic (a missing/broken target must not surface) and through a syscall trace (strace) of on-disk projects validated with INCLUDE banned, in which no file of the project other than the root may be opened; when strace is unavailable that part is reported inconclusive",
 		},
 		Families: []fw.Family{
 			{Name: "bans", N: constN(2400, 60000), Gen: genModelCase, Eval: c18Eval},
 			{Name: "option-reuse", N: constN(600, 20000), Gen: genModelCase, Eval: c18EvalReuse},
 		},
-		Floors: map[string]int64{"banned_hits_checked": 2000, "unaffected_checked": 2000},
+		Floors: map[string]int64{"banned_hits_checked": 2000, "unaffected_checked": 2000, "opens_projects_run": 100},
+		Post:   c18Post,
 	})
+	fw.RegisterAux("c18opens", c18AuxOpens)
+}
+
+// ---- "before any file it names is read", under strace ----
+
+// c18Projects: on-disk projects whose root includes files (existing, nested, missing); deterministic in (tier, seed).
+func c18Projects(tier string, seed uint64) []map[string]string {
+	n := 150
+	if tier == "thorough" {
+		n = 3000
+	}
+	var out []map[string]string
+	for i := 0; i < n; i++ {
+		r := xrand.Derive(seed, i, "c18opens")
+		files := map[string]string{}
+		var root strings.Builder
+		root.WriteString("JSIGHT 0.3\n")
+		k := r.Range(1, 3)
+		for j := 0; j < k; j++ {
+			name := fmt.Sprintf("inc%d.jst", j)
+			if r.Chance(1, 3) {
+				name = fmt.Sprintf("sub/inc%d.jst", j)
+			}
+			where := r.Intn(3)
+			switch where {
+			case 0:
+				root.WriteString("INCLUDE " + name + "\n")
+			case 1:
+				root.WriteString(fmt.Sprintf("URL /u%d\n  INCLUDE %s\n", j, name))
+			default:
+				root.WriteString(fmt.Sprintf("MACRO @m%d\n  INCLUDE %s\nPASTE @m%d\n", j, name, j))
+			}
+			switch {
+			case where == 1:
+				files[name] = fmt.Sprintf("GET\n  200 any\n")
+			case r.Chance(1, 4):
+				// missing file
+			case r.Chance(1, 3):
+				files[name] = fmt.Sprintf("TYPE @t%d\n  {\"a\": 1}\nINCLUDE deeper%d.jst\n", j, j)
+				files[filepath.Join(filepath.Dir(name), fmt.Sprintf("deeper%d.jst", j))] = fmt.Sprintf("GET /deep%d\n  200 any\n", j)
+			default:
+				files[name] = fmt.Sprintf("GET /inc%d\n  200 any\n", j)
+			}
+		}
+		root.WriteString("GET /root\n  200 any\n")
+		files["root.jst"] = root.String()
+		out = append(out, files)
+	}
+	return out
+}
+
+func c18BanFor(i int) []string {
+	switch i % 3 {
+	case 0:
+		return []string{"INCLUDE"}
+	case 1:
+		return []string{"TAG", "INCLUDE", "Query"}
+	default:
+		return []string{"INCLUDE", "GET"}
+	}
+}
+
+// aux: jsmon aux c18opens <basedir> <tier> <seed>
+func c18AuxOpens(args []string) int {
+	if len(args) < 3 {
+		return 2
+	}
+	base, tier := args[0], args[1]
+	seed, _ := strconv.ParseUint(args[2], 10, 64)
+	for i, files := range c18Projects(tier, seed) {
+		dir := filepath.Join(base, fmt.Sprintf("p%d", i))
+		for name, content := range files {
+			p := filepath.Join(dir, name)
+			_ = os.MkdirAll(filepath.Dir(p), 0o755)
+			_ = os.WriteFile(p, []byte(content), 0o644)
+		}
+		var oo []core.Option
+		var ee []directive.Enumeration
+		for _, b := range c18BanFor(i) {
+			e, _ := run.BanEnum(b)
+			ee = append(ee, e)
+		}
+		oo = append(oo, core.WithBannedDirectives(ee...))
+		_, _ = os.Stat(fmt.Sprintf("/VERIF-MARK/%d", i))
+		res := func() (res string) {
+			defer func() {
+				if r := recover(); r != nil {
+					res = "panic"
+				}
+			}()
+			j, err := kit.NewJapi(filepath.Join(dir, "root.jst"), oo...)
+			if err != nil {
+				return "new_error " + err.Error()
+			}
+			if je := j.ValidateJAPI(); je != nil {
+				return "rejected " + je.Msg
+			}
+			return "accepted"
+		}()
+		_, _ = os.Stat("/VERIF-MARK/end")
+		fmt.Printf("%d\t%s\n", i, res)
+	}
+	return 0
+}
+
+func c18Post(d *fw.Driver) {
+	if _, err := exec.LookPath("strace"); err != nil {
+		d.AddInconclusive("strace not found: the 'no file is read' part did not run")
+		return
+	}
+	base := filepath.Join(d.WorkDir, "c18-opens-base")
+	_ = os.MkdirAll(base, 0o755)
+	logf := filepath.Join(d.WorkDir, "c18-opens.strace")
+	cmd := exec.Command("strace", "-f", "-qq", "-e", "trace=open,openat,readlink,readlinkat,stat,newfstatat,lstat,statx", "-o", logf,
+		d.Self, "aux", "c18opens", base, d.Tier, strconv.FormatUint(d.Seed, 10))
+	out, err := cmd.Output()
+	if err != nil {
+		d.AddInconclusive(fmt.Sprintf("strace run failed: %v %s", err, fw.Short(out, 300)))
+		return
+	}
+	projects := c18Projects(d.Tier, d.Seed)
+	results := map[int]string{}
+	for _, l := range strings.Split(string(out), "\n") {
+		if i := strings.IndexByte(l, '\t'); i > 0 {
+			n, _ := strconv.Atoi(l[:i])
+			results[n] = l[i+1:]
+		}
+	}
+	for i := range projects {
+		res := results[i]
+		d.Count("opens_projects_run", 1)
+		if !strings.HasPrefix(res, "rejected") || !strings.Contains(res, "directive not allowed (INCLUDE)") && !strings.Contains(res, "directive not allowed (GET)") {
+			d.AddViolation("banned-include-result:"+run.MsgTemplate(res), fmt.Sprintf("project %d with %v banned answered %q\nroot:\n%s", i, c18BanFor(i), res, projects[i]["root.jst"]), nil)
+		}
+	}
+	f, err := os.Open(logf)
+	if err != nil {
+		d.AddInconclusive("strace log missing")
+		return
+	}
+	defer f.Close()
+	cur := -1
+	sc := bufio.NewScanner(f)
+	sc.Buffer(make([]byte, 1<<20), 1<<20)
+	opens, rootOpens := 0, 0
+	flagged := map[int]bool{}
+	for sc.Scan() {
+		m := straceLine.FindStringSubmatch(sc.Text())
+		if m == nil {
+			continue
+		}
+		call, path := m[2], m[3]
+		if strings.HasPrefix(path, "/VERIF-MARK/") {
+			v := strings.TrimPrefix(path, "/VERIF-MARK/")
+			if v == "end" {
+				cur = -2
+			} else {
+				cur, _ = strconv.Atoi(v)
+			}
+			continue
+		}
+		if cur < 0 || !filepath.IsAbs(path) {
+			continue
+		}
+		clean := filepath.Clean(path)
+		if !strings.HasPrefix(clean, base+"/") {
+			continue
+		}
+		isOpen := strings.HasPrefix(call, "open") || strings.HasPrefix(call, "readlink")
+		if !isOpen {
+			d.Count("opens_stat_calls_in_project", 1)
+			continue
+		}
+		opens++
+		rel := strings.TrimPrefix(clean, filepath.Join(base, fmt.Sprintf("p%d", cur))+"/")
+		if rel == "root.jst" {
+			rootOpens++
+			continue
+		}
+		if !flagged[cur] {
+			flagged[cur] = true
+			root := ""
+			if cur < len(projects) {
+				root = projects[cur]["root.jst"]
+			}
+			d.AddViolation("banned-include-file-opened", fmt.Sprintf("with %v banned the library called %s(%q) while validating project %d: a file named by a banned INCLUDE was read\nroot:\n%s", c18BanFor(cur), call, path, cur, root), nil)
+		}
+	}
+	d.Count("opens_open_calls_seen", int64(opens))
+	d.Count("opens_root_opens_seen", int64(rootOpens))
+	if rootOpens < len(projects) {
+		d.AddInconclusive(fmt.Sprintf("strace log shows %d opens of root files for %d projects: observer not working", rootOpens, len(projects)))
+	}
+	d.Distinct("banned-include-under-strace")
 }
 
 func kindOfSpan(k string) string {
